@@ -15,7 +15,8 @@ TRUSTED = ['construct 2.10 primitives re-implemented in Model/Construct.lean fro
            'file grammar Spec/ContainerV2.encodeV2 (diffed byte for byte against the harness encoder, section encv2)',
            'from_kd_buf as proved in C01 (decode_eq_spec / decode_rejects_other_lengths)']
 from .. import rdir as _rdir  # noqa: E402
-TRUSTED = TRUSTED + [_rdir.TRUSTED]
+from .. import cnir as _cnir  # noqa: E402
+TRUSTED = TRUSTED + [_rdir.TRUSTED, _cnir.TRUSTED]
 ASSUMPTIONS = ['bytes objects hold values 0..255 (IsBytes)',
                'thread names are modelled as their UTF-8 bytes (str.decode is injective on valid UTF-8); UTF-8 validity is '
                'Model/Construct.validUtf8, tied to CPython by section utf8',
@@ -574,10 +575,21 @@ def impl_utf8(h):
         return 'ok 0'
 
 
+def decl_translation_tie(rep):
+    """`decl_source_is_expected_ir` through the driver (`cnircheck`): the construct declarations translated from the source are
+    the ones `kd_threadmap_decl_eq_model` / `kd_header_v2_decl_eq_model` are proved for."""
+    from .. import cnir
+    return cnir.enable(rep)
+
+
 def correspondence(rep, rng, tier):
     from .. import rdir
+    decl_ok = decl_translation_tie(rep)
     rdir.enable(rep)
     quick = tier == 'quick'
+    if decl_ok:
+        from .. import cnir
+        cnir.section_decl_ir(rep, rng, lambda g: file_bytes(gen_file(g, small=g.random() < 0.7))[4:], 300 if quick else 6000)
     from .. import pipeline as _PL
     _PL.section_e2e(rep, rng, tier, n=(120 if quick else 3000), plain=0.7)
     n_main = 500 if quick else 8000
@@ -756,10 +768,12 @@ LEVEL_TEXT = ('Lean theorems over the reader/construct model of parse_v2 for ALL
               'files, malformed files, parse sequences (incl. histories in which earlier parses ended in an exception) and the public kevents() '
               'entry point; code-only oracles over histories on one PyKdebugParser and over dumps longer than every block size the reader '
               'requests (read-size probing, tools/kdv/readprobe.py).'
-              " TRANSLATION TIE: the source text of parse / parse_v2 / parse_v3 (whole, incl. the additional-data blocks and the log loop) / seek_until / set_thread_map is translated on every run (tools/gen_pyir_rd.py, pure ast) into the Python-subset IR of Model/PyIRRd (statements over the model's reader: read, while/for/break/raise/yield, bytes slices and comparisons, construct parsers as primitives; big-step interpreter); source_is_expected_ir: the generated program is the one of Spec/PyIRRdExpected; parse_is_interpreted_source: for EVERY byte string and prior state the model's parse IS that program run by the interpreter, with the same read calls; per piece: set_thread_map_ir_eq_model, parse_dispatch_ir_eq_model, parse_v2_ir_eq_model.")
+              " TRANSLATION TIE: the source text of parse / parse_v2 / parse_v3 (whole, incl. the additional-data blocks and the log loop) / seek_until / set_thread_map is translated on every run (tools/gen_pyir_rd.py, pure ast) into the Python-subset IR of Model/PyIRRd (statements over the model's reader: read, while/for/break/raise/yield, bytes slices and comparisons, construct parsers as primitives; big-step interpreter); source_is_expected_ir: the generated program is the one of Spec/PyIRRdExpected; parse_is_interpreted_source: for EVERY byte string and prior state the model's parse IS that program run by the interpreter, with the same read calls; per piece: set_thread_map_ir_eq_model, parse_dispatch_ir_eq_model, parse_v2_ir_eq_model."
+              " DECLARATIONS: the construct declarations kd_threadmap / kd_header_v2 themselves (module-level Struct(...) expressions) are translated too (tools/gen_pyir_cn.py -> Gen/PyIRCn, deep embedding Model/PyIRCn.Con with the interpreter Con.parse over the model's reader monad and the combinators of Model/Construct): decl_source_is_expected_ir, kd_threadmap_decl_eq_model, kd_header_v2_decl_eq_model (for EVERY reader state the interpreted declaration = threadEntry / headerV2: same value, exception, position, read counters, incl. the greedy zero padding and its rewind), parse_v2_rests_on_declarations (parseV2 with its primitive replaced by the interpreted kd_header_v2); section decl-ir runs the generated declarations against the real construct objects.")
 LEVEL_NOTE = ('Partial: v2_events_partial carries the hypothesis "no records, or first record byte != 0" — without it the real '
               'code loses or misaligns records (known finding K1, reproduced on model and code every run). Trusted: Lean kernel, '
               'Model/Construct + Model/Reader as models of construct/BytesIO (diffed, not verified), Spec.encodeV2 as the meaning '
               'of "version-2 dump".'
-              ' The hand model of the readers is no longer trusted by itself: it is proved equal to the interpreted source (trusted instead: translator tools/gen_pyir_rd.py and interpreter Model/PyIRRd, both tested against CPython by the sections *-ir; the construct parsers, plistlib.loads and OsLogEvent.from_raw_log_event as primitives / parameters).')
+              ' The hand model of the readers is no longer trusted by itself: it is proved equal to the interpreted source (trusted instead: translator tools/gen_pyir_rd.py and interpreter Model/PyIRRd, both tested against CPython by the sections *-ir; the construct parsers, plistlib.loads and OsLogEvent.from_raw_log_event as primitives / parameters).'
+              ' The construct parser kd_header_v2 is no longer a primitive by fiat: its declaration is translated and proved equal to headerV2 (trusted instead: translator tools/gen_pyir_cn.py, Con.parse as the way construct composes its classes, and ONE combinator of Model/Construct per construct class — Padding(0x100) vs Padding(0xfc), field order, Int32ul vs Int64ul, FixedSized(0x14, …) are read off the source).')
 TECHNIQUE = 'Lean 4 proof (parser/encoder round trip) + differential correspondence + translation validation (source text -> IR, proved equal to the model)'
